@@ -15,6 +15,7 @@ from harness import common as cm
 from harness import sweepspec as ss
 
 PID = 'C02'
+BOUNDS = {'quick': dict(M='1..4', quad_types=4, node_families=2, preconditioners='IE LU MIN-SR-S PIC EE + k-dependent k<=3', unknowns='1 (2 for coupled cases)', rk_classes='all', verlet_M='2..3'), 'thorough': dict(M='1..6', quad_types=4, node_families=6, preconditioners='all qmat names', k_dependent='k<=6', unknowns='1..2')}
 
 SWEEPERS = {}
 
